@@ -216,15 +216,18 @@ func groupRace(ctx context.Context, chain []ct.ASN1Cert, asPreChain bool,
 				return
 			case <-timeoutchan:
 			}
+			simYield("race.groupComplete", group.Name, logURL, chain)
 			if state.groupComplete(group.Name) {
 				cancel()
 				return
 			}
+			simYield("race.request", group.Name, logURL, chain)
 			if firstRequested := state.request(logURL, cancel); !firstRequested {
 				return
 			}
 			sct, err := submitter.SubmitToLog(subCtx, logURL, chain, asPreChain)
 			// TODO(Mercurrent): verify SCT
+			simYield("race.setResult", group.Name, logURL, chain)
 			state.setResult(logURL, sct, err)
 		}(i, logURL)
 	}
